@@ -672,7 +672,7 @@ class Gen:
     ns = r.randint(*self.cfg["styles"])
     for i in range(ns):
       a = {q(XML, "id"): f"s{i}"}
-      self.inline(a, False, 0.9, (1, 3))
+      self.inline(a, r.random() < 0.3, 0.9, (1, 3))        # now and then a <style> that carries region properties (origin, extent, padding ...)
       if i and r.random() < 0.5:
         refs = [f"s{r.randrange(i)}" for _ in range(r.choice([1, 1, 2]))]
         if self.chance("p_missing_ref"):
@@ -946,7 +946,11 @@ def sink_docs():
             mk("region", {q(XML, "id"): "r1", "begin": tx(0, 0), "end": tx(30, 1), "style": "s1", q(TTS, "origin"): "10% 10%", q(TTS, "extent"): "80% 80%",
                           q(TTS, "padding"): "1% 2%", q(TTS, "showBackground"): "whenActive", q(TTS, "overflow"): "visible",
                           q(TTS, "displayAlign"): "after", q(TTS, "writingMode"): "lrtb", q(TTS, "position"): "center", q(TTS, "backgroundColor"): "#00000080"},
-               [mk("set", {"begin": tx(2, 0), "dur": tx(3, 1), q(TTS, "visibility"): "hidden"}), mk("style", {q(TTS, "color"): "white"})])]
+               [mk("set", {"begin": tx(2, 0), "dur": tx(3, 1), q(TTS, "visibility"): "hidden"}), mk("style", {q(TTS, "color"): "white"})]),
+            # region geometry that comes ONLY from a referenced <style> and from a nested <style> (so that a malformed value there is not
+            # masked by an inline attribute of the region)
+            mk("style", {q(XML, "id"): "sg", q(TTS, "origin"): "5% 5%", q(TTS, "extent"): "60% 20%", q(TTS, "padding"): "1%"}),
+            mk("region", {q(XML, "id"): "r2", "style": "sg"}, [mk("style", {q(TTS, "position"): "left 10% top 70%", q(EBUTTS, "linePadding"): "0.25c"})])]
     body = mk("body", {"begin": tx(1, 0), q(TTS, "color"): "aqua", "timeContainer": "par", q(XML, "space"): "default"}, [
       mk("div", {"region": "r1", "style": "s0", "begin": tx(1, 1), "dur": tx(20, 0)}, [
         mk("p", {"begin": tx(1, 0), "end": tx(10, 1), "style": "s1 s0", q(TTS, "textAlign"): "end", q(TTS, "color"): "rgb(1,2,3)",
@@ -955,7 +959,8 @@ def sink_docs():
             mk("span", {"dur": tx(2, 1), q(TTS, "fontWeight"): "normal", q(TTS, "textDecoration"): "noUnderline lineThrough", q(TTS, "color"): "rgba(9,8,7,6)"}, [" A "]),
             mk("br"), mk("span", {"begin": tx(1, 0), "end": tx(3, 1), q(TTS, "visibility"): "hidden", q(TTS, "display"): "auto", "timeContainer": "seq"},
                          ["dropped", mk("span", {"dur": tx(1, 0)}, ["B"])])]),
-        mk("p", {"begin": tx(2, 1), "dur": tx(5, 0), q(TTS, "fontStyle"): "oblique"}, ["C ", mk("span", {"style": "s0"}, ["D"])])])])
+        mk("p", {"begin": tx(2, 1), "dur": tx(5, 0), q(TTS, "fontStyle"): "oblique"}, ["C ", mk("span", {"style": "s0"}, ["D"])])]),
+      mk("div", {"region": "r2"}, [mk("p", {"begin": tx(3, 0), "dur": tx(4, 1)}, ["E"])])])
     a = {q(XML, "space"): "default", q(TTP, "frameRate"): "25", q(TTP, "frameRateMultiplier"): "1 1", q(TTP, "tickRate"): "1000",
          q(TTP, "cellResolution"): "40 20", q(TTS, "extent"): "1280px 720px"}
     docs.append((name, _serialise(tt(head, body, a))))
@@ -1031,7 +1036,7 @@ LENGTH_BAD = [("no-unit", "10"), ("no-number", "px"), ("inner-space", "10 px"), 
 ENUMS = {"fontWeight", "fontStyle", "textAlign", "display", "visibility", "wrapOption", "direction", "unicodeBidi", "textCombine", "rubyAlign",
          "rubyPosition", "multiRowAlign", "showBackground", "overflow", "displayAlign", "writingMode"}
 COLOR_ATTRS = {"color", "backgroundColor"}
-LENGTH_ATTRS = {"fontSize", "lineHeight", "linePadding", "shear"}
+LENGTH_ATTRS = {"fontSize", "lineHeight", "shear"}
 OTHER_BAD = {
   "textDecoration": [("unknown-token", "blink"), ("unknown-token", ""), ("unknown-token", "Underline"), ("unknown-token", "underline blink")],
   "textShadow": [("one-component", "1px"), ("five-components", "1px 1px 1px 1px 1px"), ("garbage", "foo"), ("two-bad-lengths", "a b")],
@@ -1039,10 +1044,13 @@ OTHER_BAD = {
   "textEmphasis": [("garbage", "foo bar")],
   "opacity": [("garbage", "abc"), ("two-dots", "1.0.0"), ("empty", "")],
   "luminanceGain": [("garbage", "abc")],
-  "origin": [("one-component", "10%"), ("three-components", "1% 2% 3%"), ("garbage", "a b"), ("no-unit", "10 10")],
-  "extent": [("one-component", "10%"), ("three-components", "1% 2% 3%"), ("garbage", "a b")],
+  # `em-units` / `px-unit`: values that PARSE as lengths but that the property does not admit (the canonical model rejects them): they are
+  # malformed for this attribute like any other, wherever the attribute stands (inline, on a referenced or nested <style>, on <initial>, on <set>)
+  "origin": [("one-component", "10%"), ("three-components", "1% 2% 3%"), ("garbage", "a b"), ("no-unit", "10 10"), ("em-units", "1em 2em")],
+  "extent": [("one-component", "10%"), ("three-components", "1% 2% 3%"), ("garbage", "a b"), ("em-units", "1em 1em")],
+  "linePadding": [("px-unit", "1px"), ("em-unit", "1em"), ("no-unit", "1"), ("garbage", "abc")],
   "padding": [("five-components", "1% 1% 1% 1% 1%"), ("garbage", "a"), ("no-unit", "1 2")],
-  "position": [("garbage", "a b"), ("bad-length", "left 10")],
+  "position": [("garbage", "a b"), ("bad-length", "left 10"), ("em-units", "left 1em top 1em")],
   "fontFamily": [("empty", "")],
   "fillLineGap": [],
   "timeContainer": [("unknown-token", "excl"), ("wrong-case", "PAR"), ("empty", "")],
@@ -1082,7 +1090,7 @@ def corruptions_for(elem, attr, frame_rate):
     out += [("colour", c[0], c[1], c[2] if len(c) > 2 else None) for c in COLOR_BAD]
   elif ns in (TTS, EBUTTS) and name in LENGTH_ATTRS:
     out += [("length", cid, val, None) for cid, val in LENGTH_BAD]
-  elif (ns in (TTS, TTP, ITTS, XML) and name in OTHER_BAD and name != "style") or (ns == "" and name in ("timeContainer", "style")):
+  elif (ns in (TTS, TTP, ITTS, XML, EBUTTS) and name in OTHER_BAD and name != "style") or (ns == "" and name in ("timeContainer", "style")):
     out += [(name, cid, val, None) for cid, val in OTHER_BAD[name]]
   return out
 
